@@ -5,7 +5,7 @@ float SUM within 1e-9 relative; ANY_VALUE by membership.
 """
 import random
 
-from .. import env
+from .. import env, util
 from ..gen import queries as gq
 from ..model import qast, refsem
 from . import common
@@ -338,6 +338,36 @@ def leg_typed_aggregates(ns, res, spec):
             res.sample({'leg': 'typed-aggregates', 'front_end': front, 'query': qtext, 'rows': [[repr(v) for v in r] for r in rows][:4], 'expected_groups': len(exp)})
 
 
+def leg_infinite(ns, res):
+    """Numeric strings that name an infinity (the Python conversion accepts 'inf' / '-inf' / 'Infinity'), and finite values whose sum leaves the double range:
+    SUM / AVG over a group holding +infinity is +infinity (not NaN), over both infinities NaN; MIN / MAX order them like any number."""
+    import math
+    A = [['p', '1.5'], ['p', 'inf'], ['p', '2'], ['n', '-inf'], ['n', '3'], ['b', 'inf'], ['b', '-Infinity'], ['o', '1e308'], ['o', '1e308'], ['o', '5'], ['q', '2.5'], ['m', '-1e308'], ['m', '-1.7e308']]
+    exp = {'b': ('nan', 'inf', '-inf', 'nan'), 'm': ('-inf', -1e308, -1.7e308, '-inf'), 'n': ('-inf', 3, '-inf', '-inf'), 'o': ('inf', 1e308, 5, 'inf'), 'p': ('inf', 'inf', 1.5, 'inf'), 'q': (2.5, 2.5, 2.5, 2.5)}
+
+    def same(g, x):
+        if x == 'nan':
+            return isinstance(g, float) and math.isnan(g)
+        if x in ('inf', '-inf'):
+            return isinstance(g, float) and math.isinf(g) and (g > 0) == (x == 'inf')
+        return isinstance(g, (int, float)) and not isinstance(g, bool) and abs(g - x) <= 1e-9 * max(1.0, abs(x))
+    for spelling in (('SUM', 'MAX', 'MIN', 'AVG'), ('sum', 'max', 'min', 'avg'), ('Sum', 'Max', 'Min', 'Avg')):
+        for rows in (A, list(reversed(A))):
+            q = 'select a1, %s(a2), %s(a2), %s(a2), %s(a2) group by a1' % spelling
+            out, err = [], None
+            try:
+                ns.rbql.query_table(q, [list(r) for r in rows], out, [])
+            except Exception as e:
+                err = '%s: %s' % (util.error_class(e), str(e)[:120])
+            res.evaluations += 1
+            res.count('infinite_value_aggregate_runs')
+            bad = err is not None or [r[0] for r in out] != sorted(exp)
+            if not bad:
+                bad = any(not same(g, x) for r in out for g, x in zip(r[1:], exp[r[0]]))
+            if bad:
+                res.violation('py:aggregates-over-infinite-values', '[py] %s over %r -> %r (error %r) ; expected per key (SUM, MAX, MIN, AVG) %r' % (q, rows, out, err, exp), {'leg': 'infinite', 'query_text': q, 'A': rows, 'engine': 'py'})
+
+
 def plan(tier, seed):
     k = NSHARDS[tier]
     return [{'k': k, 'i': i, 'n': CASES[tier] // k} for i in range(k)] + [{'kind': 'typed-aggregates', 'i': i, 'n': 240 if tier == 'quick' else 3000} for i in range(2 if tier == 'quick' else 6)]
@@ -349,6 +379,8 @@ def run_shard(spec, res):
         return leg_typed_aggregates(ns, res, spec)
     rng = random.Random(spec['seed'] * 15485863 + spec['i'])
     js = common.JsLeg(res, PROPERTY, classify_js)
+    if spec['i'] == 0:
+        leg_infinite(ns, res)
     try:
         for n in range(spec['n']):
             builtin = n % 16 == 15
